@@ -332,7 +332,7 @@ def envaxis(repo: Repo) -> List[Ob]:
     #      reorder before any operator is contracted, otherwise operands given as (polarization, fock) bind in storage order
     for q in ["Envelope.apply_kraus", "Envelope.measure_POVM", "Envelope.trace_out"]:
         fi = repo.func(q)
-        props = _props(fi)
+        props = tuple(dict.fromkeys(_props(fi) + ("C02",)))     # automatic combining/reordering must not change the physics
         cfg = CFG(fi.node)
         comb = [nd for nd in cfg.nodes for x in walk_node(nd) if method_call(x) and method_call(x)[1] == "combine" and src(method_call(x)[0]) == "self"]
         ro = {nd for nd in cfg.nodes for x in walk_node(nd) if method_call(x) and method_call(x)[1] == "reorder" and src(method_call(x)[0]) == "self"}
